@@ -2,6 +2,7 @@ import PicoProofs.EncProg
 import PicoProofs.GoTieEncoder
 import PicoProofs.GoTieEncProg
 import PicoProofs.Tie
+import PicoProofs.GoTieEncTypes
 /-
 C17 — Results are independent of buffer provenance; arguments are never modified.
 -/
@@ -76,6 +77,31 @@ an encoder or into the input slice of a decoder (facts regenerated from the sour
 theorem C17_arguments_never_modified :
     Gen.paramStores = Tie.expectedParamStores ∧ Gen.copyCalls = Tie.expectedCopyCalls :=
   Tie.stores_are_the_modelled_ones
+
+open Pico.GoTie.DT Pico.GoTie.ET in
+/-- SOURCE (encoder_types.go, translated): a typed writer never modifies the value it is handed, and
+the bytes it leaves do not depend on the buffer's spare capacity or on what a re-allocation leaves
+behind: two runs on buffers with the same logical bytes agree on the logical bytes -/
+theorem C17_source_typed_writer_independent (oracle oracle' : Nat → Bytes) (always : Bool) (k : Scalar) (field : Int)
+    (enc enc' : Buf) (hd : enc.data = enc'.data) (v : GoVal k) (h : InRange k v) :
+    ∃ d t t', srcWriteSingle oracle always k field enc v = .ok (⟨d, t⟩, v)
+      ∧ srcWriteSingle oracle' always k field enc' v = .ok (⟨d, t'⟩, v) := by
+  obtain ⟨t, ht⟩ := writeSingle_data oracle always k field enc v h
+  obtain ⟨t', ht'⟩ := writeSingle_data oracle' always k field enc' v h
+  exact ⟨_, t, t', ht, by rw [ht', hd]⟩
+
+open Pico.GoTie.DT Pico.GoTie.ET in
+/-- SOURCE: likewise for the repeated writers (the list handed in comes back unchanged) -/
+theorem C17_source_repeated_writer_independent (oracle oracle' : Nat → Bytes) (always : Bool) (k : Scalar) (field : Int)
+    (enc enc' : Buf) (hd : enc.data = enc'.data) (vs : List (GoVal k)) (hr : ∀ x ∈ vs, InRange k x)
+    (hsz : enc.len + 10 * vs.length + 12 < 9223372036854775808) :
+    ∃ d t t', srcWriteRepeated oracle always k field enc vs = .ok (⟨d, t⟩, vs)
+      ∧ srcWriteRepeated oracle' always k field enc' vs = .ok (⟨d, t'⟩, vs) := by
+  obtain ⟨t, ht⟩ := writeRepeated_tie oracle always k field enc vs hr hsz
+  obtain ⟨t', ht'⟩ := writeRepeated_tie oracle' always k field enc' vs hr (by
+    have : enc'.len = enc.len := by simp [Buf.len, hd]
+    omega)
+  exact ⟨_, t, t', ht, by rw [ht', hd]⟩
 
 /-- non-vacuity: a two-level program with a stale 0xFF buffer -/
 example : sizesOk [LOp.any [0x0a] true [LOp.raw [1, 2, 3]], LOp.present [0x12] []] := by
